@@ -843,6 +843,7 @@ def cases(rng, tier):
         yield {"k": "pid", "ids": ["".join(r3.choice(alphabet) for _ in range(r3.randint(0, 5))) for _ in range(40)]}
     n = {"quick": 400, "thorough": 15000, "search": 3000}.get(tier, 400)
     made = 0
+    prev = []
     while made < n:
         sub = rng.randint(0, 2**31)
         r2 = random.Random(sub)
@@ -852,6 +853,8 @@ def cases(rng, tier):
         desc["sub"] = sub
         made += 1
         yield desc
+        prev.append(desc)
+        del prev[:-4]
         if made % 8 == 0:
             # round 6: a time signature inside a measure (its own random stream: the other cases stay what they were)
             mb = midbar_variant(desc, random.Random(sub ^ 0x19C08))
@@ -871,6 +874,14 @@ def cases(rng, tier):
             # round 5: the same durations / offsets spelled with tuple divisors (1/4/3) and additive components
             # (1/4+1/8): the reader's other duration paths; must load to the same score
             yield {"k": "respell", "base": desc, "seed": rng.randint(0, 2**31)}
+        if made % 5 == 2:
+            # round 6: a HISTORY over one file name: this case and the previous ones written one after the other to the
+            # same file through differently spelled paths, loaded after every write (own random stream)
+            rh = random.Random(sub ^ 0x6C08)
+            bases = [rh.choice(prev) for _ in range(rh.randint(1, 2))] + [desc]
+            rh.shuffle(bases)
+            yield {"k": "history", "steps": [{"base": b, "save": rh.choice(SAVE_FORMS), "load": rh.choice(LOAD_FORMS)}
+                                             for b in bases]}
         if made % 7 == 0:
             # empty lines anywhere (also before the version line) change nothing: the reader skips them
             yield {"k": "blank", "base": desc, "at": ([0] if rng.random() < 0.6 else []) + [rng.randint(0, 40) for _ in range(rng.randint(0, 3))]}
@@ -965,6 +976,92 @@ def save_and_load(desc, edit_text=None):
                 f.write("\n".join(res["text"]) + "\n")
         load_all(fn, res)
     return res
+
+
+# ---------------------------------------------------------------------- round 6: histories over ONE file name
+# "writing ... to a match file and loading that file returns the same ..." holds for every file at every time: what a
+# load returns depends on the CONTENTS of the file now, not on what an earlier load of the same file (under this or
+# another spelling of its name) returned.  A history writes several cases to the same file one after the other, each
+# through a randomly chosen spelling of the path (str, pathlib.Path, a "/./" spelling, a path relative to the working
+# directory, a symbolic link, or a copy of a file written elsewhere) and loads it after every write through another
+# spelling; EVERY load is judged by the full round-trip oracle against the case that was written LAST.
+SAVE_FORMS = ["str", "path", "dot", "rel", "link", "copy", "text"]
+LOAD_FORMS = ["str", "path", "dot", "rel", "link"]
+
+
+def spell(form, td, name="x.match"):
+    import pathlib
+
+    fn = os.path.join(td, name)
+    if form == "path":
+        return pathlib.Path(fn)
+    if form == "dot":
+        return os.path.join(td, ".", name)
+    if form == "rel":
+        return os.path.relpath(fn)
+    if form == "link":
+        ln = os.path.join(td, "link.match")
+        if not os.path.islink(ln):
+            os.symlink(fn, ln)
+        return ln
+    return fn
+
+
+def history_run(steps):
+    """steps: [{"base": rt-desc, "save": form, "load": form}]; returns one res (as save_and_load) per step"""
+    import shutil
+    from partitura.io.exportmatch import save_match
+
+    out = []
+    with tempfile.TemporaryDirectory(prefix="c08h-") as td:
+        fn = os.path.join(td, "x.match")
+        for st in steps:
+            desc = st["base"]
+            part = build_part(desc["part"])
+            ppart = build_perf(desc)
+            res = {"spart": part, "ppart": ppart}
+            out.append(res)
+            sf = st["save"]
+            target = os.path.join(td, "other.match") if sf in ("copy", "text") else spell(sf, td)
+            try:
+                quiet(save_match, [dict(a) for a in desc["align"]], ppart, part, out=target, mpq=desc["mpq"],
+                      ppq=desc["ppq"], assume_unfolded=True)
+            except Exception as e:
+                res["save_error"] = "%s: %s" % (type(e).__name__, e)
+                continue
+            if sf == "copy":
+                shutil.copy(target, fn)
+            elif sf == "text":
+                txt = open(target).read()
+                with open(fn, "w") as f:
+                    f.write(txt)
+            res["text"] = open(fn).read().split("\n")
+            if res["text"] and res["text"][-1] == "":
+                res["text"].pop()
+            load_all(spell(st["load"], td), res)
+    return out
+
+
+def eval_history(desc, ev):
+    steps = desc["steps"]
+    ress = history_run(steps)
+    for i, (st, res) in enumerate(zip(steps, ress)):
+        for f in oracle_rt(st["base"], res):
+            # the first load of a history is the plain round trip: its failures keep their own clause name; a later
+            # load that fails where the plain round trip of the same case does not is a failure of the history
+            if i > 0 and not oracle_rt(st["base"], save_and_load(st["base"])):
+                f = ("history-stale: step %d (file written as %s, loaded as %s, after %d earlier write(s)/load(s) of the "
+                     "same file) does not return what was written last although the same case round-trips through a "
+                     "fresh file: %s" % (i, st["save"], st["load"], i, f))
+            ev.oracle.append(f)
+        if ev.oracle:
+            break
+    if ress and "text" in ress[-1] and not ev.oracle:
+        corr_rt(steps[-1]["base"], ress[-1], ev)
+    ev.info["feats"] = ["history:%s>%s" % (st["save"], st["load"]) for st in steps[1:]] + ["history-steps:%d" % len(steps)]
+    ev.key = "history:%s" % ",".join("%s:%s>%s" % (st["base"].get("sub"), st["save"], st["load"]) for st in steps) \
+        if all("text" in r for r in ress) else None
+    return ev
 
 
 V0_VERSIONS = [(0, 1, 0), (0, 2, 0), (0, 3, 0), (0, 4, 0), (0, 5, 0)]
@@ -2395,6 +2492,8 @@ def evaluate_(desc):
         return ev
     if k == "resave":
         return eval_resave(desc, ev)
+    if k == "history":
+        return eval_history(desc, ev)
     if k == "respell":
         return eval_respell(desc, ev)
     if k == "pid":
@@ -2467,6 +2566,12 @@ def shrink(desc):
 
     if desc.get("k") == "dedup":
         yield desc["base"]
+        return
+    if desc.get("k") == "history":
+        st = desc["steps"]
+        for i in range(len(st) - 1):
+            if len(st) > 2:
+                yield dict(desc, steps=st[:i] + st[i + 1:])
         return
     if desc.get("k") != "rt":
         return
